@@ -214,7 +214,7 @@ struct Agg {
     slowest: (u64, u64, u64),
 }
 
-/// Runs per tier (quick; thorough = 6x): what ~60 s of wall clock yields on the reference VM with 8 workers.
+/// Runs per tier (quick; thorough = 3x): what ~60 s of wall clock yields on the reference VM with 8 workers.
 fn default_runs(id: &str, thorough: bool) -> u64 {
     let q = match id {
         "C01" => 1600,
@@ -236,7 +236,7 @@ fn default_runs(id: &str, thorough: bool) -> u64 {
         _ => 500,
     };
     if thorough {
-        q * 6
+        q * 3
     } else {
         q
     }
